@@ -72,6 +72,9 @@ enum PortMode {
 }
 
 struct Env {
+    /// bound, never listening, SO_REUSEPORT: keeps the port ours for the whole history (nobody else
+    /// can be handed it by the OS), while connects are refused unless `listener` is also bound
+    _holder: tokio::net::TcpSocket,
     addr: SocketAddr,
     listener: Option<tokio::net::TcpListener>,
     /// connections that fill the accept queue in Pending mode / silent TLS peers
@@ -157,8 +160,19 @@ impl Env {
 fn bind_reuse(addr: SocketAddr, backlog: u32) -> Option<tokio::net::TcpListener> {
     let s = tokio::net::TcpSocket::new_v4().ok()?;
     let _ = s.set_reuseaddr(true);
+    let _ = s.set_reuseport(true);
     s.bind(addr).ok()?;
     s.listen(backlog).ok()
+}
+
+/// reserve a loopback port: the returned socket is bound and never listens
+fn hold_port() -> (tokio::net::TcpSocket, SocketAddr) {
+    let s = tokio::net::TcpSocket::new_v4().expect("socket");
+    s.set_reuseaddr(true).expect("reuseaddr");
+    s.set_reuseport(true).expect("reuseport");
+    s.bind("127.0.0.1:0".parse().unwrap()).expect("bind");
+    let a = s.local_addr().expect("local_addr");
+    (s, a)
 }
 
 pub struct NetHistory {
@@ -169,13 +183,10 @@ pub struct NetHistory {
 /// run one history against the real client; the reference client model says what to expect
 pub async fn run_net_history(h: &NetHistory) -> Vec<(String, String)> {
     let mut problems: Vec<(String, String)> = vec![];
-    // a free port that stays ours: bind, remember, release
-    let port = {
-        let l = std::net::TcpListener::bind("127.0.0.1:0").unwrap();
-        l.local_addr().unwrap().port()
-    };
-    let addr: SocketAddr = format!("127.0.0.1:{port}").parse().unwrap();
-    let mut env = Env { addr, listener: None, parked: vec![], conn: None, tls: h.tls };
+    // a port that stays ours for the whole history
+    let (holder, addr) = hold_port();
+    let port = addr.port();
+    let mut env = Env { _holder: holder, addr, listener: None, parked: vec![], conn: None, tls: h.tls };
     let (tx, mut gate) = mpsc::unbounded_channel();
     let options = ClientOptions::default().max_queued_requests(16).max_response_timeouts(std::num::NonZeroUsize::new(1)).decode_level(DecodeLevel::nothing());
     let retry = doubling_retry_strategy(Duration::from_millis(RETRY_MIN), Duration::from_millis(RETRY_MAX));
